@@ -185,13 +185,29 @@ class Builder(object):
     self.stub_memo[("log", a.nid)] = r
     ab = "%s_ab" % r.attr
     self.stubs.append(dict(kind="log", arg=a, res=r, origin=origin, aux=ab))
-    self.side.append(L("(= ((_ to_fp 8 24) {1}) {0})", a, ab))
+    self.side.append(L("(= ((_ to_fp 8 24) {1}) {0})", a, ab, r))   # r only marks ownership
     e = "((_ extract 30 23) %s)" % ab
     m = "((_ extract 22 0) %s)" % ab
     cond = "(and (fp.isNormal {0}) (fp.isPositive {0}))"
-    self.side.append(L("(=> " + cond + " (and (fp.leq (vf_log_lo " + e + ") {1}) (fp.leq {1} (vf_log_hi " + e + "))"
-                       " (=> (bvult " + m + " #b%s) (fp.leq {1} (vf_log_mid_hi " % format(SQRT2_MAN - LOG_WIN, "023b") + e + ")))"
-                       " (=> (bvugt " + m + " #b%s) (fp.geq {1} (vf_log_mid_lo " % format(SQRT2_MAN + LOG_WIN, "023b") + e + ")))))", a, r))
+    if getattr(self, "log_mode", "arith") == "table":
+      f = lambda name: "(%s %s)" % (name, e)
+    else:
+      # arithmetic form: k*ln2 computed in floating point from the exponent field (outward slack covers its rounding)
+      kf = "((_ to_fp 8 24) RNE (bvsub ((_ zero_extend 2) %s) #b0001111111))" % e
+      ln2 = fp_lit(math.log(2.0))
+      S = fp_lit(LOG_SLACK)
+      kl = "(fp.mul RNE %s %s)" % (kf, ln2)
+      k1 = "(fp.mul RNE (fp.add RNE %s %s) %s)" % (kf, fp_lit(1.0), ln2)
+      kh = "(fp.mul RNE (fp.add RNE %s %s) %s)" % (kf, fp_lit(0.5), ln2)
+      tab = {"vf_log_lo": "(fp.sub RNE %s %s)" % (kl, S), "vf_log_hi": "(fp.add RNE %s %s)" % (k1, S),
+             "vf_log_mid_hi": "(fp.sub RNE %s %s)" % (kh, S), "vf_log_mid_lo": "(fp.add RNE %s %s)" % (kh, S),
+             "vf_log_in_lo": "(fp.add RNE %s %s)" % (kl, S), "vf_log_in_hi": "(fp.sub RNE %s %s)" % (k1, S)}
+      f = lambda name: tab[name]
+    self.side.append(L("(=> " + cond + " (and (fp.leq " + f("vf_log_lo") + " {1}) (fp.leq {1} " + f("vf_log_hi") + ")"
+                       " (=> (bvult " + m + " #b%s) (fp.leq {1} " % format(SQRT2_MAN - LOG_WIN, "023b") + f("vf_log_mid_hi") + "))"
+                       " (=> (bvugt " + m + " #b%s) (fp.geq {1} " % format(SQRT2_MAN + LOG_WIN, "023b") + f("vf_log_mid_lo") + "))"
+                       " (=> (bvugt " + m + " #b%s) (fp.geq {1} " % format(LOG_WIN, "023b") + f("vf_log_in_lo") + "))"
+                       " (=> (bvult " + m + " #b%s) (fp.leq {1} " % format((1 << 23) - 2 * LOG_WIN, "023b") + f("vf_log_in_hi") + "))))", a, r))
     # log(0) = -inf, log(+inf)=+inf, log(negative)=NaN on the real kernel (validated)
     self.side.append(L("(=> (fp.isZero {0}) (and (fp.isInfinite {1}) (fp.isNegative {1})))", a, r))
     self.side.append(L("(=> (= {0} %s) (= {1} %s))" % (PINF, PINF), a, r))
@@ -237,10 +253,12 @@ class Builder(object):
     return r
 
   def close_stubs(self):
-    """pairwise monotonicity / functionality between stubs of the same kind (idempotent)"""
+    """functional consistency between stubs of the same kind (idempotent).  NOTE: no monotonicity axiom -
+    tf.math.log / tanh / sigmoid on the pinned build are measurably *not* monotone at the ulp level
+    (validated: see qz.validate_log_contract), so only determinism is assumed."""
     done = getattr(self, "_closed", set())
     self._closed = done
-    for kind in ("log", "tanh", "sigmoid"):
+    for kind in ("log", "tanh", "sigmoid", "pow2"):
       ss = [s for s in self.stubs if s["kind"] == kind]
       for i in range(len(ss)):
         for j in range(i + 1, len(ss)):
@@ -248,14 +266,13 @@ class Builder(object):
           if (a["res"].nid, b["res"].nid) in done:
             continue
           done.add((a["res"].nid, b["res"].nid))
-          self.side.append(L("(=> (fp.leq {0} {1}) (fp.leq {2} {3}))", a["arg"], b["arg"], a["res"], b["res"]))
-          self.side.append(L("(=> (fp.leq {1} {0}) (fp.leq {3} {2}))", a["arg"], b["arg"], a["res"], b["res"]))
+          self.side.append(L("(=> (= {0} {1}) (= {2} {3}))", a["arg"], b["arg"], a["res"], b["res"]))
 
 
 # --- log contract tables -----------------------------------------------------
 SQRT2_MAN = 0x3504F3
 LOG_WIN = 0x400          # +-2^-13 relative tie window around sqrt(2)
-LOG_SLACK = 3e-5
+LOG_SLACK = 4e-5
 
 
 def log_tables_smt():
@@ -265,7 +282,9 @@ def log_tables_smt():
   for name, fn, rnd in (("vf_log_lo", lambda k: k * ln2 - LOG_SLACK, f32_down),
                         ("vf_log_hi", lambda k: (k + 1) * ln2 + LOG_SLACK, f32_up),
                         ("vf_log_mid_hi", lambda k: (k + 0.5) * ln2 - LOG_SLACK, f32_up),
-                        ("vf_log_mid_lo", lambda k: (k + 0.5) * ln2 + LOG_SLACK, f32_down)):
+                        ("vf_log_mid_lo", lambda k: (k + 0.5) * ln2 + LOG_SLACK, f32_down),
+                        ("vf_log_in_lo", lambda k: k * ln2 + LOG_SLACK, f32_down),
+                        ("vf_log_in_hi", lambda k: (k + 1) * ln2 - LOG_SLACK, f32_up)):
     body = fp_lit(rnd(fn(127)))
     for E in range(253, 0, -1):
       body = "(ite (= e #x%02x) %s %s)" % (E, fp_lit(rnd(fn(E - 127))), body)
